@@ -238,6 +238,16 @@ impl<Data> IoLoopInner for LoopInner<'_, Data> {
         if let Ok(slot) = self.sources.borrow_mut().get_mut(token.inner) {
             slot.source = None;
         }
+        // The adapter is going away (drop or into_inner): the fd must leave the poller as well,
+        // it may live on in the hands of the caller.
+        let mut disp = dispatcher.borrow_mut();
+        if disp.is_registered {
+            disp.is_registered = false;
+            let _ = self
+                .poll
+                .borrow_mut()
+                .unregister(unsafe { BorrowedFd::borrow_raw(disp.fd) });
+        }
     }
 }
 
